@@ -359,20 +359,34 @@ func RunR(p []ROp, r io.ReadSeeker, tr *RTrace) error {
 }
 
 // ExecSR executes "sr CHUNKS DATAHEX prog..." and returns the canonical answer.
-func ExecSR(f []string) string {
-	out := ""
-	if p := hx.Safely(func() { out = ExecSRRaw(f) }); p != "" {
-		return "panic"
-	}
+func ExecSR(f []string) string { return PrepSR(f)() }
 
-	return out
+// PrepSR parses "sr CHUNKS DATAHEX prog..." and returns the call itself, so that a caller measuring
+// allocations measures the readers and not the parsing of the request (a 1-byte chunk list for 64 KiB of
+// data is itself a megabyte of tokens).
+func PrepSR(f []string) func() string {
+	chunks := ParseChunks(f[1])
+	data := hx.UnHex(f[2])
+	prog, _ := ParseR(f[3:])
+
+	return func() string {
+		out := ""
+		if p := hx.Safely(func() { out = runSR(chunks, data, prog) }); p != "" {
+			return "panic"
+		}
+
+		return out
+	}
 }
 
 // ExecSRRaw is ExecSR without the recover.
 func ExecSRRaw(f []string) string {
-	chunks := ParseChunks(f[1])
-	data := hx.UnHex(f[2])
 	prog, _ := ParseR(f[3:])
+
+	return runSR(ParseChunks(f[1]), hx.UnHex(f[2]), prog)
+}
+
+func runSR(chunks []int, data []byte, prog []ROp) string {
 	rd := &ChunkReader{Data: data, Chunks: chunks}
 	tr := &RTrace{}
 	err := RunR(prog, rd, tr)
